@@ -70,9 +70,9 @@ type Expect struct {
 	Why    string
 }
 
-func ok() Expect                        { return Expect{OK: true} }
+func ok() Expect                          { return Expect{OK: true} }
 func fail(why string, e ...uint32) Expect { return Expect{Errnos: e, Why: why} }
-func unspec(why string) Expect          { return Expect{Unspecified: true, Why: why} }
+func unspec(why string) Expect            { return Expect{Unspecified: true, Why: why} }
 
 // Matches reports whether an observed errno is compatible with the expectation.
 func (e Expect) Matches(errno uint32) bool {
@@ -217,27 +217,136 @@ func split(path string) []string {
 	return r
 }
 
-// walk resolves path below dir. It returns the directory that holds the last component,
-// the last component, the inode it names (nil if missing) and an errno for failures in the
-// intermediate components. A path that is "." yields target == dir with parent == nil.
-func walk(dir *Inode, path string) (parent *Inode, name string, target *Inode, errno uint32) {
-	comps := split(path)
+// resolved is the result of POSIX path resolution below a directory descriptor.
+type resolved struct {
+	parent   *Inode   // directory holding the last component (nil when finalDot)
+	name     string   // last component
+	target   *Inode   // what the path names (nil if the last component is missing)
+	errno    uint32   // failure in an intermediate component (ENOENT / ENOTDIR)
+	escape   bool     // absolute path, or ".." climbs above the directory descriptor
+	empty    bool     // no component at all ("" or only slashes)
+	mustDir  bool     // trailing slash: the path must name a directory
+	finalDot bool     // last component is "." or "..": names a directory, not an entry
+	stack    []string // names from the descriptor's directory down to the target
+	// dotAfterNonDir: a "." or ".." component follows a component that is not an existing
+	// directory (purely lexical normalisation would hide that failure)
+	dotAfterNonDir bool
+}
+
+// resolvePath resolves path component by component as POSIX does: every component but the
+// last must be an existing directory (also in front of "." and ".."), empty components are
+// ignored, a trailing slash demands a directory. WASI adds: absolute paths and paths that
+// climb above the descriptor's directory are refused.
+func resolvePath(dir *Inode, path string) (r resolved) {
+	if strings.HasPrefix(path, "/") {
+		r.escape = true
+		return
+	}
+	var comps []string
+	for _, c := range strings.Split(path, "/") {
+		if c != "" {
+			comps = append(comps, c)
+		}
+	}
 	if len(comps) == 0 {
+		r.empty = true
+		return
+	}
+	r.mustDir = strings.HasSuffix(path, "/")
+	inodes := []*Inode{dir}
+	var names []string
+	for i, c := range comps {
+		cur := inodes[len(inodes)-1]
+		last := i == len(comps)-1
+		switch c {
+		case ".":
+			if last {
+				r.finalDot, r.target = true, cur
+			}
+		case "..":
+			if len(inodes) == 1 {
+				r.escape = true
+				return
+			}
+			inodes, names = inodes[:len(inodes)-1], names[:len(names)-1]
+			if last {
+				r.finalDot, r.target = true, inodes[len(inodes)-1]
+			}
+		default:
+			nx := cur.Ents[c]
+			if last {
+				r.parent, r.name, r.target = cur, c, nx
+				names = append(names, c)
+				break
+			}
+			if nx == nil || !nx.Dir {
+				r.errno = ENOTDIR
+				if nx == nil {
+					r.errno = ENOENT
+				}
+				for _, later := range comps[i+1:] {
+					if later == "." || later == ".." {
+						r.dotAfterNonDir = true
+					}
+				}
+				return
+			}
+			inodes, names = append(inodes, nx), append(names, c)
+		}
+	}
+	r.stack = names
+	return
+}
+
+// escapes reports whether the spelling alone shows that the path is absolute or climbs above
+// the directory it is relative to. Such a call fails whatever the descriptor is (wazero
+// judges the path before the descriptor), so no particular errno is predicted.
+func escapes(path string) bool {
+	if strings.HasPrefix(path, "/") {
+		return true
+	}
+	depth := 0
+	for _, c := range strings.Split(path, "/") {
+		switch c {
+		case "", ".":
+		case "..":
+			if depth--; depth < 0 {
+				return true
+			}
+		default:
+			depth++
+		}
+	}
+	return false
+}
+
+var failEscape = Expect{Why: "absolute path or path leaving the directory descriptor"}
+
+// walk is resolvePath for plain paths (seeding): parent, last name, target, errno.
+func walk(dir *Inode, path string) (parent *Inode, name string, target *Inode, errno uint32) {
+	r := resolvePath(dir, path)
+	if r.escape || r.empty || r.finalDot {
 		return nil, ".", dir, 0
 	}
-	cur := dir
-	for _, c := range comps[:len(comps)-1] {
-		nx, found := cur.Ents[c]
-		if !found {
-			return nil, "", nil, ENOENT
-		}
-		if !nx.Dir {
-			return nil, "", nil, ENOTDIR
-		}
-		cur = nx
+	return r.parent, r.name, r.target, r.errno
+}
+
+// LexicalDiffers reports whether the path belongs to the class of finding
+// C16-lexical-dot-components: an implementation that normalises the path lexically
+// (path.Clean) instead of resolving it component by component gives a different answer than
+// POSIX, because (a) a "." or ".." component follows a component that is not an existing
+// directory ("file/.", "missing/../x"), or (b) entryOp (mkdir, rmdir, unlink, rename) is
+// applied to a path whose last component is "." or ".." ("dir/.", "a/..").
+func (m *Model) LexicalDiffers(dirfd int32, path string, entryOp bool) bool {
+	d, e := m.dirOf(dirfd)
+	if e != nil {
+		return false
 	}
-	name = comps[len(comps)-1]
-	return cur, name, cur.Ents[name], 0
+	r := resolvePath(d.Ino, path)
+	if r.escape || r.empty {
+		return false
+	}
+	return r.dotAfterNonDir || (entryOp && r.finalDot)
 }
 
 // dirOf returns the descriptor's directory inode or the expectation for why a path call
@@ -288,6 +397,9 @@ func (o Open) Meaningful() bool {
 // PathOpen models path_open. It returns the expectation and the descriptor number a
 // successful call must return.
 func (m *Model) PathOpen(dirfd int32, path string, o Open) (Expect, int32) {
+	if escapes(path) && m.FDs[dirfd] != nil && !m.FDs[dirfd].Stdio || escapes(path) && m.FDs[dirfd] == nil {
+		return failEscape, -1
+	}
 	d, e := m.dirOf(dirfd)
 	if e != nil {
 		return *e, -1
@@ -295,9 +407,18 @@ func (m *Model) PathOpen(dirfd int32, path string, o Open) (Expect, int32) {
 	if !o.Meaningful() {
 		return unspec("flag combination outside the model"), -1
 	}
-	parent, name, t, errno := walk(d.Ino, path)
-	if errno != 0 {
-		return fail("intermediate component", errno), -1
+	r := resolvePath(d.Ino, path)
+	switch {
+	case r.empty:
+		return unspec("empty path"), -1
+	case r.escape:
+		return fail("absolute path or path leaving the directory descriptor"), -1
+	case r.errno != 0:
+		return fail("intermediate component", r.errno), -1
+	}
+	parent, name, t := r.parent, r.name, r.target
+	if r.mustDir && o.Creat {
+		return fail("O_CREAT with a trailing slash"), -1
 	}
 	if t == nil {
 		if !o.Creat {
@@ -307,6 +428,9 @@ func (m *Model) PathOpen(dirfd int32, path string, o Open) (Expect, int32) {
 		t.Nlink = 1
 		parent.Ents[name] = t
 	} else {
+		if !t.Dir && r.mustDir {
+			return fail("trailing slash on a file", ENOTDIR), -1
+		}
 		if o.Creat && o.Excl {
 			return fail("name exists and O_EXCL", EEXIST), -1
 		}
@@ -325,7 +449,7 @@ func (m *Model) PathOpen(dirfd int32, path string, o Open) (Expect, int32) {
 		m.Reused = true
 	}
 	nd := &Desc{Ino: t, Read: o.Read, Write: o.Write, Append: o.Append && !t.Dir, Root: d.Root}
-	nd.Path = append(append([]string{}, d.Path...), split(path)...)
+	nd.Path = append(append([]string{}, d.Path...), r.stack...)
 	m.FDs[fd] = nd
 	return ok(), fd
 }
@@ -541,30 +665,52 @@ func (m *Model) FdSetSize(fd int32, size int64) Expect {
 
 // PathFilestat models path_filestat_get.
 func (m *Model) PathFilestat(dirfd int32, path string) (Expect, bool, int64) {
+	if escapes(path) && m.FDs[dirfd] != nil && !m.FDs[dirfd].Stdio || escapes(path) && m.FDs[dirfd] == nil {
+		return failEscape, false, 0
+	}
 	d, e := m.dirOf(dirfd)
 	if e != nil {
 		return *e, false, 0
 	}
-	_, _, t, errno := walk(d.Ino, path)
-	if errno != 0 {
-		return fail("intermediate component", errno), false, 0
+	r := resolvePath(d.Ino, path)
+	switch {
+	case r.empty:
+		return unspec("empty path"), false, 0
+	case r.escape:
+		return fail("absolute path or path leaving the directory descriptor"), false, 0
+	case r.errno != 0:
+		return fail("intermediate component", r.errno), false, 0
 	}
+	t := r.target
 	if t == nil {
 		return fail("name does not exist", ENOENT), false, 0
+	}
+	if r.mustDir && !t.Dir {
+		return fail("trailing slash on a file", ENOTDIR), false, 0
 	}
 	return ok(), t.Dir, int64(len(t.Data))
 }
 
 // Mkdir models path_create_directory.
 func (m *Model) Mkdir(dirfd int32, path string) Expect {
+	if escapes(path) && m.FDs[dirfd] != nil && !m.FDs[dirfd].Stdio || escapes(path) && m.FDs[dirfd] == nil {
+		return failEscape
+	}
 	d, e := m.dirOf(dirfd)
 	if e != nil {
 		return *e
 	}
-	parent, name, t, errno := walk(d.Ino, path)
-	if parent == nil && errno == 0 {
-		return unspec("mkdir of '.'")
+	r := resolvePath(d.Ino, path)
+	switch {
+	case r.empty:
+		return unspec("empty path")
+	case r.escape:
+		return fail("absolute path or path leaving the directory descriptor")
+	case r.errno == 0 && r.finalDot:
+		return fail("mkdir of a path ending in '.' or '..'")
 	}
+	// a trailing slash is allowed for mkdir (POSIX)
+	parent, name, t, errno := r.parent, r.name, r.target, r.errno
 	if errno == ENOTDIR {
 		// wazero's DirFS.Mkdir deliberately reports ENOENT here; the property does not
 		// single out this case, so both are accepted.
@@ -585,14 +731,23 @@ func (m *Model) Mkdir(dirfd int32, path string) Expect {
 
 // Rmdir models path_remove_directory.
 func (m *Model) Rmdir(dirfd int32, path string) Expect {
+	if escapes(path) && m.FDs[dirfd] != nil && !m.FDs[dirfd].Stdio || escapes(path) && m.FDs[dirfd] == nil {
+		return failEscape
+	}
 	d, e := m.dirOf(dirfd)
 	if e != nil {
 		return *e
 	}
-	parent, name, t, errno := walk(d.Ino, path)
-	if parent == nil && errno == 0 {
-		return unspec("rmdir of '.'")
+	r := resolvePath(d.Ino, path)
+	switch {
+	case r.empty:
+		return unspec("empty path")
+	case r.escape:
+		return fail("absolute path or path leaving the directory descriptor")
+	case r.errno == 0 && r.finalDot:
+		return fail("rmdir of a path ending in '.' or '..'")
 	}
+	parent, name, t, errno := r.parent, r.name, r.target, r.errno
 	if errno != 0 {
 		return fail("intermediate component", errno)
 	}
@@ -612,14 +767,23 @@ func (m *Model) Rmdir(dirfd int32, path string) Expect {
 
 // Unlink models path_unlink_file.
 func (m *Model) Unlink(dirfd int32, path string) Expect {
+	if escapes(path) && m.FDs[dirfd] != nil && !m.FDs[dirfd].Stdio || escapes(path) && m.FDs[dirfd] == nil {
+		return failEscape
+	}
 	d, e := m.dirOf(dirfd)
 	if e != nil {
 		return *e
 	}
-	parent, name, t, errno := walk(d.Ino, path)
-	if parent == nil && errno == 0 {
-		return unspec("unlink of '.'")
+	r := resolvePath(d.Ino, path)
+	switch {
+	case r.empty:
+		return unspec("empty path")
+	case r.escape:
+		return fail("absolute path or path leaving the directory descriptor")
+	case r.errno == 0 && r.finalDot:
+		return fail("unlink of a path ending in '.' or '..'")
 	}
+	parent, name, t, errno := r.parent, r.name, r.target, r.errno
 	if errno != 0 {
 		return fail("intermediate component", errno)
 	}
@@ -628,6 +792,8 @@ func (m *Model) Unlink(dirfd int32, path string) Expect {
 		return fail("name does not exist", ENOENT)
 	case t.Dir:
 		return fail("is a directory", EISDIR)
+	case r.mustDir:
+		return fail("trailing slash on a file", ENOTDIR)
 	}
 	delete(parent.Ents, name)
 	t.Nlink--
@@ -645,6 +811,11 @@ func isAncestorOrSelf(a, d *Inode) bool {
 
 // Rename models path_rename within one mount.
 func (m *Model) Rename(oldfd int32, oldPath string, newfd int32, newPath string) Expect {
+	if escapes(oldPath) || escapes(newPath) {
+		if a, b := m.FDs[oldfd], m.FDs[newfd]; (a == nil || !a.Stdio) && (b == nil || !b.Stdio) {
+			return failEscape
+		}
+	}
 	od, eo := m.dirOf(oldfd)
 	nd, en := m.dirOf(newfd)
 	switch {
@@ -662,11 +833,17 @@ func (m *Model) Rename(oldfd int32, oldPath string, newfd int32, newPath string)
 	if od.Root != nd.Root {
 		return unspec("rename across mounts")
 	}
-	op, oname, ot, e1 := walk(od.Ino, oldPath)
-	np, nname, nt, e2 := walk(nd.Ino, newPath)
-	if (op == nil && e1 == 0) || (np == nil && e2 == 0) {
-		return unspec("rename of '.'")
+	ro, rn := resolvePath(od.Ino, oldPath), resolvePath(nd.Ino, newPath)
+	switch {
+	case ro.empty || rn.empty:
+		return unspec("empty path")
+	case ro.escape || rn.escape:
+		return fail("absolute path or path leaving the directory descriptor")
+	case (ro.errno == 0 && ro.finalDot) || (rn.errno == 0 && rn.finalDot):
+		return fail("rename of a path ending in '.' or '..'")
 	}
+	op, oname, ot, e1 := ro.parent, ro.name, ro.target, ro.errno
+	np, nname, nt, e2 := rn.parent, rn.name, rn.target, rn.errno
 	var errs []uint32
 	if e1 != 0 {
 		errs = append(errs, e1)
@@ -678,6 +855,9 @@ func (m *Model) Rename(oldfd int32, oldPath string, newfd int32, newPath string)
 	}
 	if len(errs) > 0 {
 		return fail("old name missing or a parent unusable", errs...)
+	}
+	if !ot.Dir && (ro.mustDir || rn.mustDir) {
+		return fail("trailing slash although the source is not a directory", ENOTDIR)
 	}
 	if op == np && oname == nname {
 		return ok() // same existing name: no-op
@@ -725,8 +905,8 @@ func (m *Model) RenameSameMissing(oldfd int32, oldPath string, newfd int32, newP
 	if strings.Join(a, "/") != strings.Join(b, "/") {
 		return false
 	}
-	_, _, ot, e1 := walk(od.Ino, oldPath)
-	return e1 != 0 || ot == nil
+	r := resolvePath(od.Ino, oldPath)
+	return r.errno != 0 || (r.target == nil && !r.finalDot && !r.escape && !r.empty)
 }
 
 // Listing models what a complete fd_readdir pass must yield (without "." and ".."):
